@@ -92,6 +92,27 @@ Theorem C08_fault_isolation :
 Proof. exact contacted_at_once. Qed.
 Print Assumptions C08_fault_isolation.
 
+(* In particular the version request (helpers.go serviceInfo -> NodeVersion) that precedes every
+   submission to a node is that node's own affair: node i is handed the payload exactly when its own
+   version endpoint has answered (never, if it never does), in full, whatever the version endpoints
+   and the replies of the other nodes do. *)
+Theorem C08_handed_over_after_own_version_request :
+  forall inp order i v,
+    guard_ok (i_kind inp) (i_len inp) = true ->
+    valid_order (length (i_nodes inp)) order ->
+    (Z.of_nat (length (i_nodes inp)) <= i_conc inp)%Z ->
+    nth_error (fst (run inp order)) i = Some v ->
+    exists nd, nth_error (i_nodes inp) i = Some nd
+               /\ v_at v = n_ver1 nd
+               /\ (n_ver1 nd <> None -> v_calls v = calls_of (i_kind inp) (i_len inp) (i_conc inp)).
+Proof.
+  intros inp order i v Hg Ho Hc Hv.
+  destruct (contacted_at_once inp order i v Hg Ho Hc Hv) as [nd [En ->]].
+  exists nd. split; [exact En|]. split; [reflexivity|].
+  cbn [solo_view v_calls]. destruct (n_ver1 nd); [reflexivity | congruence].
+Qed.
+Print Assumptions C08_handed_over_after_own_version_request.
+
 (* ... and success via it: if node i, taken alone, ends with an accepted result at d < timeout,
    every possible outcome is a success, returned no later than d (d > 0; an answer at the very
    instant of the call can be signalled before the caller waits, then the next signal wakes it),
@@ -342,4 +363,46 @@ Example C08_example_tolerated_chunk_then_accept :
   /\ P_b (seen false 200 [(10, false)]) = false
   /\ P_b (seen true 30 [(10, false)]) = false /\ agree (seen true 30 [(10, false)]) = false
   /\ P_b (seen true 30 [(10, true)]) = true /\ P_b (seen true 30 [(200, false)]) = true.
+Proof. vm_compute. repeat split. Qed.
+
+(* Faults at the version endpoint.  Sync committee contributions to three nodes, concurrency 3,
+   timeout 500 ms: node 0 never answers the version request, node 1 answers it after 300 ms and then
+   accepts within 10 ms, node 2 answers it at once and accepts after 40 ms.  The model: node 0 is
+   never handed the payload, node 1 at 300 ms, node 2 at once; success at 40 ms.  The check's
+   predicate accepts that observation and condemns what a submitter does that asks the nodes for
+   their versions one after the other before dispatching (seeded change C08-8): the call that has not
+   returned when nothing more can happen, node 2 contacted only once node 1 has answered, and a
+   failure reported later than the timeout. *)
+Example C08_example_version_faults :
+  let nd v d := {| n_client := Lighthouse; n_default := BReply d RAccept; n_over := []; n_ver1 := v; n_ver2 := Some 0 |} in
+  let inp := {| i_kind := KSyncContributions; i_len := 2; i_conc := 3; i_timeout := 500;
+                i_nodes := [ nd None 10; nd (Some 300) 10; nd (Some 0) 40 ] |} in
+  let seen ok ret nodes := {| c_id := 0; c_body := CSubmit inp [0; 1; 2]%nat
+        {| o_panic := false; o_success := ok; o_ret := ret; o_nodes := nodes; o_cut := [[]; []; []] |} |} in
+  snd (run inp [0; 1; 2]%nat) = [(true, 40)]
+  /\ map v_at (fst (run inp [0; 1; 2]%nat)) = [None; Some 300; Some 0]
+  /\ map v_done (fst (run inp [0; 1; 2]%nat)) = [None; Some 310; Some 40]
+  /\ agree (seen true 40 [[]; [(300, [0; 1])]; [(0, [0; 1])]]) = true
+  /\ P_b (seen true 40 [[]; [(300, [0; 1])]; [(0, [0; 1])]]) = true
+  /\ P_b (seen false 2350 [[]; []; []]) = false
+  /\ P_b (seen true 340 [[]; [(300, [0; 1])]; [(300, [0; 1])]]) = false
+  /\ P_b (seen false 800 [[]; [(300, [0; 1])]; []]) = false.
+Proof. vm_compute. repeat split. Qed.
+
+(* The classifier's own version request counts against the node it is made to, and only against it:
+   a Teku node rejects sync committee messages as duplicates at 40 ms, having answered the first
+   version request after 20 ms, and answers the classifier's version request after another 100 ms:
+   vouch has its (tolerated) answer at 160 ms; the other node never answers anything. *)
+Example C08_example_version_again :
+  let dup := RError {| e_shape := ShFailures; e_entries := [Some PhTekuDupSync] |} in
+  let inp := {| i_kind := KSyncMessages; i_len := 2; i_conc := 2; i_timeout := 500;
+                i_nodes := [ {| n_client := Teku; n_default := BReply 40 dup; n_over := []; n_ver1 := Some 20; n_ver2 := Some 100 |};
+                             {| n_client := Prysm; n_default := BHang; n_over := []; n_ver1 := Some 0; n_ver2 := None |} ] |} in
+  let seen ok ret := {| c_id := 0; c_body := CSubmit inp [0; 1]%nat
+        {| o_panic := false; o_success := ok; o_ret := ret; o_nodes := [[(20, [0; 1])]; [(0, [0; 1])]]; o_cut := [[]; []] |} |} in
+  run inp [0; 1]%nat
+  = ([ {| v_start := Some 0; v_at := Some 20; v_calls := [(0, 2)]; v_done := Some 160; v_verdict := VOk |};
+       {| v_start := Some 0; v_at := Some 0; v_calls := [(0, 2)]; v_done := None; v_verdict := VOk |} ], [(true, 160)])
+  /\ agree (seen true 160) = true /\ P_b (seen true 160) = true
+  /\ P_b (seen false 500) = false /\ P_b (seen true 60) = false.
 Proof. vm_compute. repeat split. Qed.
